@@ -186,8 +186,8 @@ struct TK {   // Congruence
     case 0: if (go) x = Congruence(x, (dimension_type) D.n); return "copy_dim(" + std::to_string(D.n) + ")";
     case 1: if (go) x = Congruence(x, (dimension_type) D.n, rand_rep_fixed); return "copy_dim_repr(" + std::to_string(D.n) + ")";
     case 2: { Z m = D.mul; if (coin_fixed) m = 0; if (go) x.set_modulus(m); return "set_modulus(" + zs(m) + ")"; }
-    case 3: if (go) x.scale(D.k); return "scale(" + zs(D.k) + ")";
-    case 4: { if (x.space_dimension() == 0) return ""; if (go) x.affine_preimage(Variable(D.v), D.ex, D.k2); return "affine_preimage(" + std::to_string(D.v) + "," + str(D.ex) + "," + zs(D.k2) + ")"; }
+    case 3: if (go) x.scale(D.mul); return "scale(" + zs(D.mul) + ")";   // a negative factor would make the modulus negative (caller's business)
+    case 4: { if (x.space_dimension() == 0) return ""; Z den = D.k2 < 0 ? Z(-D.k2) : D.k2; if (go) x.affine_preimage(Variable(D.v), D.ex, den); return "affine_preimage(" + std::to_string(D.v) + "," + str(D.ex) + "," + zs(den) + ")"; }
     case 5: { Z m = D.mul; if (go) x /= m; return "div_assign(" + zs(m) + ")"; }
     case 6: if (go) x.sign_normalize(); return "sign_normalize()";
     case 7: if (go) x.normalize(); return "normalize()";
@@ -213,6 +213,9 @@ template <typename Obj> std::string dim_op(int i, Obj& x, const Draw& D, dimensi
 }
 template <typename Obj> std::string remove_op(Obj& x, const Draw& D, bool& ret, bool go) { if (go) ret = x.remove_space_dimensions(D.vs); return "remove_space_dimensions({" + D.vs_s + "})"; }
 template <> std::string remove_op<Congruence>(Congruence&, const Draw&, bool&, bool) { return ""; }   // not in Congruence's interface
+// Constraint::remove_space_dimensions does not re-normalise (3*A - E >= 6 minus E stays 3*A >= 6; debug builds then abort in
+// the next member that asserts OK()): representation-independent, exercised only outside assert-safe mode
+template <> std::string remove_op<Constraint>(Constraint& x, const Draw& D, bool& ret, bool go) { if (assert_safe()) return ""; if (go) ret = x.remove_space_dimensions(D.vs); return "remove_space_dimensions({" + D.vs_s + "})"; }
 
 // public values that a copy with another space dimension must preserve (for variables that survive)
 struct Snap { std::string kind; std::vector<Z> c; Z extra; };
@@ -226,6 +229,17 @@ const char* special_column(const Constraint& x) { return x.is_strict_inequality(
 const char* special_column(const Generator& x) { return x.is_closure_point() ? "closure-point" : 0; }
 const char* special_column(const Grid_Generator& x) { return x.is_parameter() ? "parameter" : "grid-generator-last-column"; }
 const char* special_column(const Congruence&) { return 0; }
+
+// the smallest dimension a copy / set_space_dimension may shrink to without turning a line or ray into the
+// (invalid) zero direction: members that shrink do not re-validate, that is the caller's business
+dimension_type min_keep(const Constraint&) { return 0; }
+dimension_type min_keep(const Congruence&) { return 0; }
+dimension_type min_keep(const Generator& x) { if (!x.is_line_or_ray()) return 0; for (dimension_type i = 0; i < x.space_dimension(); ++i) if (x.coefficient(Variable(i)) != 0) return i + 1; return 0; }
+dimension_type min_keep(const Grid_Generator& x) { if (!x.is_line()) return 0; for (dimension_type i = 0; i < x.space_dimension(); ++i) if (x.coefficient(Variable(i)) != 0) return i + 1; return 0; }
+
+// rows of different topologies never meet inside a system: comparing them is outside the contract
+template <typename Obj> bool nnc_marker(const Obj& x) { return dump(x).find("(NNC)") != std::string::npos; }
+template <typename Obj> bool comparable(const Obj& a, const Obj& b) { return nnc_marker(a) == nnc_marker(b); }
 
 template <typename T> struct Pair { typename T::Obj d, s; Pair() : d(DENSE), s(SPARSE) {} };
 
@@ -258,6 +272,9 @@ template <typename T> void obj_history() {
     std::string op; int kind = rnd(0, 19);
     dimension_type dim = A.d.space_dimension();
     Draw D(dim, maxv);
+    if ((dimension_type) D.n < min_keep(A.d)) D.n = (int) min_keep(A.d);
+    // shrinking copies / set_space_dimension do not re-normalise (debug builds assert OK()): grow only in assert-safe mode
+    if (assert_safe() && (dimension_type) D.n < dim) D.n = (int) dim + D.n % 3;
     RD_GUARD_BEGIN
     try {
       if (kind < 5) { int w = rnd(0, 3); op = dim_op(w, A.d, D, dim, false); if (!op.empty()) { tr(pre + op); dim_op(w, A.d, D, dim, true); dim_op(w, A.s, D, dim, true); } }
@@ -266,10 +283,10 @@ template <typename T> void obj_history() {
         // Copying a strict inequality / closure point / parameter to another dimension leaves the epsilon coefficient / divisor in
         // its old column (defect, both representations alike; it poisons what follows: division by a zero divisor): visited rarely.
         const char* sc = special_column(A.d); bool fragile = w <= 1 && sc && (dimension_type) D.n != dim;
-        if (fragile && !coin((int) hx::opt().geti("copydim", 15))) { hx::count("obj.skip.copy_dim_special_column"); op.clear(); }
+        if (fragile && !risky("copydim", 15)) { hx::count("obj.skip.copy_dim_special_column"); op.clear(); }
         // truncating DENSE -> SPARSE copy keeps the cut-off elements in the sparse row (defect): visited rarely, and named
         if (w == 1 && (dimension_type) D.n < dim) { bool td = (A.d.representation() == DENSE && r1 == SPARSE) || (A.s.representation() == DENSE && r2 == SPARSE);
-          if (td && !coin((int) hx::opt().geti("truncds", 10))) { if (A.d.representation() == DENSE) r1 = DENSE; if (A.s.representation() == DENSE) r2 = DENSE; td = false; }
+          if (td && !risky("truncds", 10)) { if (A.d.representation() == DENSE) r1 = DENSE; if (A.s.representation() == DENSE) r2 = DENSE; td = false; }
           if (td && !op.empty()) poison() = "truncating-dense-to-sparse"; }
         if (!op.empty() && fragile && poison().empty()) poison() = std::string(sc) + "-special-column-misplaced";
         if (!op.empty()) { tr(pre + op + "[" + rs(r1) + rs(r2) + "]"); Snap before = snap(A.d); T::rand_rep_fixed = r1; T::special(w, A.d, D, true); T::rand_rep_fixed = r2; T::special(w, A.s, D, true);
@@ -291,9 +308,10 @@ template <typename T> void obj_history() {
         if (intoD) A.d.m_swap(L); else A.s.m_swap(L); }
       else { // binary predicates, four representation combinations must agree
         op = "binary_queries"; tr(pre + op + "(#" + std::to_string(b) + ")");
+        if (!comparable(A.d, B.d)) { hx::count("obj.skip.mixed_topology_compare"); op.clear(); }
         const Obj* xs[2] = { &A.d, &A.s }; const Obj* ys[2] = { &B.d, &B.s };
         int e0 = 0, q0 = 0, o0 = 0, c0 = 0;
-        for (int p = 0; p < 2; ++p) for (int q = 0; q < 2; ++q) {
+        for (int p = 0; p < 2 && !op.empty(); ++p) for (int q = 0; q < 2; ++q) {
           checked(); hx::count("obj.binary_query_combos");
           // objects of different topologies (strict vs non-strict, closure point vs point) are outside the contract of
           // some of these: an exception is recorded as an answer and must then be the answer of all four combinations
@@ -347,11 +365,15 @@ template <typename T> bool sys_agree(const SPair<T>& p, const std::string& op) {
 template <typename T> std::string sys_special(int, typename T::Sys&, const Draw&, const typename T::Sys&, bool) { return ""; }
 template <> std::string sys_special<TC>(int i, Constraint_System& x, const Draw& D, const Constraint_System&, bool go) {
   if (i % 2 == 0) { if (go) x.set_space_dimension(std::max<dimension_type>(x.space_dimension(), D.n)); return "set_space_dimension(grow " + std::to_string(D.n) + ")"; }
+  // NOTE: shrinking leaves the `sorted' flag set on rows that are no longer sorted (Linear_System::set_space_dimension;
+  // debug builds abort in OK()): representation-independent, so only exercised outside assert-safe mode
+  if (assert_safe()) { if (go) x.set_space_dimension(std::max<dimension_type>(x.space_dimension(), D.n)); return "set_space_dimension(grow " + std::to_string(D.n) + ")"; }
   if (go) x.set_space_dimension(D.n); return "set_space_dimension(" + std::to_string(D.n) + ")";
 }
 template <> std::string sys_special<TG>(int i, Generator_System& x, const Draw& D, const Generator_System&, bool go) {
   if (i % 2 == 0) { if (go) x.set_space_dimension(std::max<dimension_type>(x.space_dimension(), D.n)); return "set_space_dimension(grow " + std::to_string(D.n) + ")"; }
-  if (go) x.set_space_dimension(D.n); return "set_space_dimension(" + std::to_string(D.n) + ")";
+  // shrinking could turn a ray or line into the zero direction (rows are not re-validated): grow only
+  if (go) x.set_space_dimension(std::max<dimension_type>(x.space_dimension(), D.n)); return "set_space_dimension(grow " + std::to_string(D.n) + ")";
 }
 template <> std::string sys_special<TK>(int i, Congruence_System& x, const Draw& D, const Congruence_System& other, bool go) {
   switch (i % 6) {
@@ -435,7 +457,10 @@ void insert_one(Grid_Generator_System& s, const Grid_Generator& g, bool rec) { i
 // with the representation tokens neutralised) must coincide.
 template <typename PH> bool dom_agree(const PH& d, const PH& s, const std::string& dom, const std::string& op) {
   checked(); hx::count("client_checks");
-  std::string a = ndump(d), b = ndump(s);
+  std::string rawd = dump(d), raws = dump(s);
+  if (raws.find("SPARSE") != std::string::npos) hx::count("client.sparse_system_in_domain_object");
+  if (rawd.find("DENSE") != std::string::npos) hx::count("client.dense_system_in_domain_object");
+  std::string a = neutral(rawd), b = neutral(raws);
   if (a == b) return true;
   bool val = (d == s);
   size_t i = 0; while (i < a.size() && i < b.size() && a[i] == b[i]) ++i; size_t from = i > 150 ? i - 150 : 0;
@@ -457,6 +482,7 @@ template <typename PH> bool poly_ops(PH& d, PH& s, const std::string& dom, int m
   if (!dom_agree(d, s, dom, "construct")) return false;
   for (int st = 0, n = rnd(2, 5); st < n; ++st) {
     int k = rnd(0, 9); std::string op; dimension_type dim = d.space_dimension();
+    if (assert_safe()) { (void) d.is_empty(); (void) s.is_empty(); }
     switch (k) {
     case 0: op = "minimized_constraints"; (void) d.minimized_constraints(); (void) s.minimized_constraints(); break;
     case 1: op = "minimized_generators"; (void) d.minimized_generators(); (void) s.minimized_generators(); break;
@@ -509,6 +535,7 @@ template <> bool client_check<TG>(SPair<TG>& A, const std::string&) {
   C_Polyhedron* pd; C_Polyhedron* ps; if (!build_pair(A.d, A.s, pd, ps, "C_Polyhedron")) return false; if (!pd) return true; hx::count("client.C_Polyhedron.from_generators"); bool ok = poly_ops(*pd, *ps, "C_Polyhedron", maxv); delete pd; delete ps; return ok;
 }
 template <> bool client_check<TK>(SPair<TK>& A, const std::string&) {
+  if (assert_safe()) return true;     // Grid::simplify reaches the false assertion at Sparse_Row.cc:585/630/674 on SPARSE rows
   Grid* pd; Grid* ps; if (!build_pair(A.d, A.s, pd, ps, "Grid")) return false; if (!pd) return true; hx::count("client.Grid.from_congruences"); bool ok = grid_ops(*pd, *ps, 4); delete pd; delete ps;
   if (ok && coin(30)) { // conversions between system kinds
     checked(); Constraint_System cd(A.d, DENSE), cs(A.s, SPARSE); if (sig(cd) != sig(cs)) { viol("C16.diff.Constraint_System.from_congruence_system", clip(sig(cd)) + " vs " + clip(sig(cs))); return false; }
@@ -518,6 +545,7 @@ template <> bool client_check<TK>(SPair<TK>& A, const std::string&) {
   return ok;
 }
 template <> bool client_check<TGG>(SPair<TGG>& A, const std::string&) {
+  if (assert_safe()) return true;
   Grid* pd; Grid* ps; if (!build_pair(A.d, A.s, pd, ps, "Grid")) return false; if (!pd) return true; hx::count("client.Grid.from_generators"); bool ok = grid_ops(*pd, *ps, 4); delete pd; delete ps;
   if (ok) { checked(); if (!A.d.is_equal_to(A.s) || !A.s.is_equal_to(A.d)) { viol("C16.diff.Grid_Generator_System.is_equal_to", "twin systems are not is_equal_to"); return false; } }
   return ok;
